@@ -16,7 +16,7 @@ Cfgs == {c \in [ver : 1..4, crc : BOOLEAN, attrs : AttrKinds, enc : BOOLEAN, com
 FileRegions  == {"single_raw", "single_comp", "multi_offsets", "multi_raw", "multi_comp", "listfile"}
 CheckRegions == {"crc_single", "crc_multi", "attributes", "sig_value"}
 MetaRegions  == {"header", "hash", "block", "hiblock", "het", "bet"}
-OtherRegions == {"sig_header", "gap"}
+OtherRegions == {"sig_header", "gap", "prefix"}   \* prefix: bytes in front of an archive that does not start at offset 0
 RegionKinds  == FileRegions \cup CheckRegions \cup MetaRegions \cup OtherRegions
 
 MultiRegion(r)  == r \in {"multi_offsets", "multi_raw", "multi_comp"}
@@ -58,9 +58,13 @@ Effects(r) ==
 \* The weak signature covers every byte of the hashed range except EXACTLY the signature area [slo, shi) (the 72-byte
 \* (signature) entry, blanked before hashing); inside the area the last 64 bytes are the RSA value.  Nothing else -- in
 \* particular not the position of the area relative to the 64 KiB digest units the hash is computed in -- matters.
-SigClass(off, slo, shi) == IF off < slo \/ off >= shi THEN "signed"
-                           ELSE IF off < slo + 8 THEN "sig_header" ELSE "sig_value"
-SigMustFail(off, slo, shi) == SigClass(off, slo, shi) \in {"signed", "sig_value"}
+\* The hashed range is the WHOLE archive [begin, end) wherever it starts in the file (begin = archive offset, end = begin +
+\* archive size); bytes in front of / behind it are outside.
+SigClass(off, begin, end, slo, shi) ==
+    IF off < begin \/ off >= end THEN "outside"
+    ELSE IF off < slo \/ off >= shi THEN "signed"
+    ELSE IF off < slo + 8 THEN "sig_header" ELSE "sig_value"
+SigMustFail(off, begin, end, slo, shi) == SigClass(off, begin, end, slo, shi) \in {"signed", "sig_value"}
 \* The version-4 digests are functions of the whole header / table bytes: an intact table verifies whatever its size is
 \* relative to any unit the implementation streams it in (Trace_Integrity!T_Intact applies to every archive size).
 
